@@ -96,6 +96,10 @@ def _decode_model(env, model_vals):
                 v = math.asinh(model_vals[h[1].decl().name()]) * d.denom
             elif name in model_vals:
                 v = model_vals[name]
+            if v is not None and t is not None and name in model_vals and isinstance(model_vals[name], (int, float)) and model_vals[name] * v < 0:
+                # the model fixes the SIGN of the parameter as well as cos/sin of parameter/denom: pick the representative of
+                # the same angle class with that sign (same trig values, e.g. for code that takes abs(theta))
+                v -= math.copysign(2 * math.pi * d.denom, v)
             vals[name] = 0.0 if v is None else v
     return vals
 
